@@ -60,3 +60,8 @@ pub proof fn lemma_count_newlines_bound(s: Seq<char>)
         if newline_at(s, s.len() - 1) { assert(is_typst_newline(s[s.len() - 1])); }
     }
 }
+
+/// C10: no line of the rendered text that lies inside a string literal or raw block ends in a blank
+/// (otherwise stripping trailing blanks would change the literal).  Deliberately uninterpreted: the post-processing
+/// pass has no knowledge of literals, so its caller has to establish this -- and cannot (known finding C10-F1).
+pub uninterp spec fn literal_lines_clean(rendered: Seq<char>) -> bool;
